@@ -251,6 +251,10 @@ class IndexedCache:
 
         :param assignment: The assignment to check.
         """
+        if not self.keys:
+            # outputs inserted without any key are kept unindexed (flat_cache): the index holds nothing that a lookup
+            # could be served from, so no lookup is covered.
+            return False
         assignment = {k: v for k, v in assignment.items() if k in self.keys}
         seen = self.seen_set.check(assignment)
         # if not seen:
